@@ -61,7 +61,7 @@ impl Engine for Msim {
             "C13" => "some object was handed out at least 3 times",
             _ => "see DESIGN.md section 6",
         };
-        let r = if matches!(prop, "C01" | "C02" | "C03" | "C04") {
+        let r = if matches!(prop, "C01" | "C02" | "C03" | "C04" | "C06") {
             format!("{}{}. Cases of the stage `timeouts` (virtual-clock interpreter) count as non-trivial by the C10 rule: a deadline expired or a completion happened within 1 ms of a pending deadline", common, r)
         } else {
             format!("{}{}", common, r)
@@ -104,7 +104,7 @@ impl Engine for Msim {
             });
         }
         // the clauses about timed-out calls need a runtime: delegated to the virtual-clock interpreter
-        if matches!(ctx.prop.as_str(), "C01" | "C02" | "C03" | "C04") {
+        if matches!(ctx.prop.as_str(), "C01" | "C02" | "C03" | "C04" | "C06") {
             stages.push(Stage {
                 name: "timeouts".into(),
                 cases: if thorough { 16 * 100000 } else { 16 * 6000 },
